@@ -5,6 +5,10 @@ import vlib
 
 def sig_of(clause, e):
     c = e["c"]
+    if c["t"] == "httpbatch":
+        return "httpbatch[%s]%s:%s:status=%s,answered=%s" % (",".join(c["members"]), "/json" if c.get("json") else "", clause, e.get("status"), e.get("answered"))
+    if c["t"] == "httpshape":
+        return "httpshape=%s,%s,%s%s:%s:status=%s,count=%d,code=%d" % (c["method"], c["idc"] if c["hasId"] else "noid", c["params"], "/json" if c.get("json") else "", clause, e.get("status"), e["count"], e["code"])
     if c["t"] == "batch":
         what = {"BatchNeverFailsConnection": "teardown", "BatchReplyWhenAllAnswered": "no-flush" if not e["flushes"] else "wrong-flush",
                 "BatchReplyComplete": "incomplete", "BatchNoStrayResponses": "stray", "NoCrash": "panic"}.get(clause, clause)
@@ -30,6 +34,10 @@ def run_wire(v, tier, seed, replay_case=None):
         vlib.write_ndjson(cases, [replay_case])
     else:
         os.replace(os.path.join(wd, "cases.ndjson"), cases)
+    if replay_case is None:
+        # the streamable HTTP cases run in the same harness pass
+        with open(cases, "a") as fh:
+            fh.write(open(os.path.join(wd, "httpcases.ndjson")).read())
     ncases = sum(1 for _ in open(cases))
     obs = os.path.join(out, "wire_obs.ndjson")
     rc, gout, wall = vlib.go_test("mcp", "^TestVerif_C02Wire$", ["mcp/c02_wire_test.go"],
